@@ -115,6 +115,27 @@ def decide(q, enc, name, diffs, dom, samples=None):
     return rec
 
 
+def c15_point_inputs(ss, a, b):
+    """kinds of iterables (tuple, generator, map, iterator, dict values) for which AppliedPoint / convert_point differ from the list-built point
+    (finite enumeration of input containers; symbolic coordinates)"""
+    from symplyphysics.core.experimental.points import AppliedPoint
+    from symplyphysics.core.experimental.coordinate_systems import convert_point
+    cs = list(sp.symbols("c1 c2 c3", positive=True))
+    ref = AppliedPoint(list(cs), ss[a])
+    refc = convert_point(ref, ss[b]).coordinates
+    makers = {"tuple": lambda: tuple(cs), "generator": lambda: (c for c in cs), "map": lambda: map(lambda c: c, cs), "iterator": lambda: iter(cs),
+              "dict values": lambda: dict(enumerate(cs)).values()}
+    bad = []
+    for nm, mk in makers.items():
+        try:
+            P = AppliedPoint(mk(), ss[a])
+            if dict(P.coordinates) != dict(ref.coordinates) or dict(convert_point(P, ss[b]).coordinates) != dict(refc):
+                bad.append(nm)
+        except Exception as e:
+            bad.append(f"{nm} (raises {type(e).__name__})")
+    return bad
+
+
 def work(item):
     from symplyphysics.core.experimental.coordinate_systems import express_base_scalars, express_base_vectors, convert_point, convert_vector
     from symplyphysics.core.experimental.points import AppliedPoint
@@ -218,6 +239,11 @@ def work(item):
             dom = domain(enc, a, ss[a])
             Pback = convert_point(Pb, ss[a])
             out.append(decide(q, enc, f"convert_point {a}->{b}->{a} = identity", [Pback.coordinates[s] - s for s in ss[a].base_scalars], dom))
+        elif kind == "point_inputs":
+            a, b = item[1], item[2]
+            bad_kinds = c15_point_inputs(ss, a, b)
+            out.append({"name": f"convert_point {a}->{b}: the same point whatever iterable gives its coordinates", "verdict": "candidate" if bad_kinds else "discharged",
+                        "why": f"coordinates given as {bad_kinds} convert differently from the same coordinates given as a list", "trivial": True})
         elif kind == "vector":
             a, b = item[1], item[2]
             enc = Enc()
@@ -318,6 +344,9 @@ try:
             back = convert_point(Pb, ss[a]); qa = [back.coordinates[s] for s in ss[a].base_scalars]
             if not all(close(u, v) for u, v in zip(c15.textbook_position(b, qb), cart_pt)): bad = True; print("position changed", qb)
             if not all(close(u, v) for u, v in zip(qa, pa)): bad = True; print("round trip", pa, qa)
+        elif kind == "point_inputs":
+            bk = c15.c15_point_inputs(ss, item[1], item[2])
+            if bk: bad = True; print("coordinates given as", bk, "convert differently from the same coordinates given as a list")
         elif kind == "vector":
             a, b = item[1], item[2]
             pa = to_sys(a, cart_pt) if a != "cart" else list(cart_pt)
@@ -343,7 +372,7 @@ def run(ctx):
     for a in NAMES:
         items.append(("vectors_geometry", a, timeout))
     for a, b in itertools.permutations(NAMES, 2):
-        items += [("scalars_roundtrip", a, b, timeout), ("vectors_pair", a, b, timeout), ("point", a, b, timeout), ("vector", a, b, timeout)]
+        items += [("scalars_roundtrip", a, b, timeout), ("vectors_pair", a, b, timeout), ("point", a, b, timeout), ("point_inputs", a, b, timeout), ("vector", a, b, timeout)]
     for a, b, c in itertools.permutations(NAMES, 3):
         items += [("scalars_triple", a, b, c, timeout), ("vectors_triple", a, b, c, timeout)]
     ctx.explanation = (
